@@ -93,6 +93,19 @@ func (x *Exec) finishUnit(u *Unit, t0 time.Time) *Unit {
 	return u
 }
 
+func fieldWriteInScope(fw *FieldWriteContract, pkgPath string) bool {
+	if len(fw.In) == 0 {
+		return true
+	}
+	for _, in := range fw.In {
+		in = expandModRel(in)
+		if pkgPath == in || (strings.HasSuffix(in, "/...") && strings.HasPrefix(pkgPath+"/", in[:len(in)-3])) {
+			return true
+		}
+	}
+	return false
+}
+
 // verifyWriters checks a frame contract on a memory key: every repository function whose body
 // contains a write to the key (not counting writes into objects that invocation allocated) must
 // be on the allow list. One obligation per writing function.
@@ -420,7 +433,16 @@ func sweepTargets(p *Prog, db *ContractDB, prop string) []*ssa.Function {
 			}
 		}
 	}
-	if len(keys) == 0 && len(reqKeys) == 0 {
+	var fws []*FieldWriteContract
+	for _, fw := range db.FieldWrites {
+		for _, pr := range fw.Props {
+			if pr == prop || prop == "" {
+				fws = append(fws, fw)
+				break
+			}
+		}
+	}
+	if len(keys) == 0 && len(reqKeys) == 0 && len(fws) == 0 {
 		return nil
 	}
 	x := newExec(p, db)
@@ -439,6 +461,18 @@ func sweepTargets(p *Prog, db *ContractDB, prop string) []*ssa.Function {
 		found := false
 		for _, b := range fn.Blocks {
 			for _, ins := range b.Instrs {
+				if stt, isStore := ins.(*ssa.Store); isStore && len(fws) > 0 {
+					if fa, isFA := stt.Addr.(*ssa.FieldAddr); isFA {
+						if su, isStruct := deref(fa.X.Type()).Underlying().(*types.Struct); isStruct {
+							for _, fw := range fws {
+								if fw.Type == typeKey(deref(fa.X.Type())) && fw.Field == su.Field(fa.Field).Name() &&
+									(fw.InFunc == nil || fw.InFunc.MatchString(shortFn(fn))) && fieldWriteInScope(fw, pkgPath) {
+									found = true
+								}
+							}
+						}
+					}
+				}
 				ci, ok := ins.(ssa.CallInstruction)
 				if !ok {
 					continue
